@@ -230,8 +230,15 @@ func c06History(r *ev.Run, id string, rng *rand.Rand, nOps int) {
 				// this update belongs to is no longer on record, and what is recorded for the later one
 				// (its own transmit time) must not change
 				if had.TX == ntp.Time64FromTime(h.txOut) {
-					// both exchanges carry the same receive and software transmit time: indistinguishable
-					r.Class("update:record-belongs-to-a-later-exchange(indistinguishable)")
+					// both exchanges carry the same receive and software transmit time (equal clock readings, or
+					// clock readings not later than the receive time: both recorded as receive time + 1 ns): the
+					// store cannot tell them apart, the stale update is applied to the later exchange
+					if has == nil || *has != *had {
+						fail("state:update of an exchange no longer on record changed the record of a later exchange with the same receive and software transmit timestamps", "update-"+op.TX,
+							map[string]any{"rx": t64u(rx64), "record_before": had, "record_after": has})
+					} else {
+						r.Class("update:stale(record of a later exchange with the same receive and software transmit timestamps)->no change")
+					}
 					if sh != nil {
 						sh.unknown = true
 					}
